@@ -94,7 +94,8 @@ def _cases(tier, rng):
             for cut in cuts:
                 yield {"dag": d, "S": list(S), "cut": list(cut), "entry": rng.choice(("subpipeline", "map-output_names",
                                                                                      "map-auto_subpipeline")),
-                       "omit_defaults": rng.random() < 0.4, "scoped": rng.random() < 0.25}
+                       "omit_defaults": rng.random() < 0.4, "scoped": rng.random() < 0.25,
+                       "none_value": rng.randint(1, 6) if rng.random() < 0.25 else 0}
         # the whole pipeline requested (output_names=None: "the entire pipeline is run") through auto_subpipeline, from the
         # root arguments alone - with or without those that have defaults (possibly from no input at all)
         yield {"dag": d, "S": list(outs), "cut": [], "entry": "map-auto_subpipeline", "all_outputs": True,
@@ -124,6 +125,9 @@ def _check(case):
     provided_roots = set(mandatory) if case["omit_defaults"] else set(roots)
     kw = {n: f"v_{n}" for n in provided_roots}
     kw.update({n: f"SUPPLIED_{n}" for n in cut})
+    if case.get("none_value") and kw:
+        # a provided value that is None is a provided value (not "missing": a default must not replace it)
+        kw[sorted(kw)[case["none_value"] % len(kw)]] = None
     want = {}
     calls_expected = set()
     try:
